@@ -244,6 +244,12 @@ def enum_lattice(shard, nshards, tier):
 letters = st.sampled_from(SL.BASE)
 
 
+def one_in(draw, n):
+    """True about once in n (hypothesis over-samples the end points of a range, so the
+    True sits in the middle of the list)"""
+    return draw(st.sampled_from([False] * (n // 2) + [True] + [False] * (n - 1 - n // 2)))
+
+
 @st.composite
 def tables(draw, hows=("mu2", "mu2", "mu1", "ag", "ag", "int")):
     how = draw(st.sampled_from(hows))
@@ -252,7 +258,7 @@ def tables(draw, hows=("mu2", "mu2", "mu1", "ag", "ag", "int")):
     ids = draw(st.lists(st.integers(1, 60) if draw(st.booleans()) else st.integers(1, 100000),
                         min_size=ng + ns, max_size=ng + ns, unique=True))
     few = draw(st.booleans())
-    lt = st.sampled_from(draw(st.lists(letters, min_size=3, max_size=4))) if few else letters
+    lt = st.sampled_from(draw(st.lists(letters, min_size=3, max_size=5))) if few else letters
     nodes = []
     for k, nid in enumerate(ids):
         if k < ng:
@@ -267,7 +273,7 @@ def tables(draw, hows=("mu2", "mu2", "mu1", "ag", "ag", "int")):
         nodes = draw(st.permutations(nodes))
     if how == "int":
         for nd in nodes:
-            if draw(st.integers(0, 3)) == 0:
+            if one_in(draw, 4):
                 nd.append(sorted(draw(st.sets(st.sampled_from(SL.USER), min_size=1, max_size=2))))
     tb = {"how": how, "nodes": [list(n) for n in nodes], "opt": draw(st.integers(0, 2 ** 12 - 1)),
           "perm": draw(st.one_of(st.none(), st.integers(0, 2 ** 31 - 1)))}
@@ -363,9 +369,9 @@ def dof_cases(draw):
     tb = draw(tables())
     rows = node_rows(tb["nodes"])
     arows = [r[2] for r in rows]
-    nduset = draw(st.integers(0, 7)) == 0
+    nduset = one_in(draw, 8)
     if nduset:
-        expr = "p" if draw(st.integers(0, 5)) else draw(exprs())
+        expr = draw(exprs()) if one_in(draw, 6) else "p"
     else:
         expr = draw(st.one_of(st.just("p"), exprs(tb["how"] == "int"), st.sampled_from(
             ["a", "b", "q", "o", "m", "f", "n", "g", "b+q", "a+o", "l"])))
@@ -378,7 +384,7 @@ def dof_cases(draw):
     form = draw(st.sampled_from(["ids", "pairs", "pairs", "pairs"]))
     honest = draw(st.booleans())        # request only what is there (strict succeeds)
     case = {"table": tb, "set": expr, "strict": draw(st.booleans()), "nduset": nduset,
-            "setint": (not nduset) and draw(st.integers(0, 5)) == 0,
+            "setint": (not nduset) and one_in(draw, 6),
             "grids_only": True, "pack": "list"}
     if form == "ids":
         case["grids_only"] = draw(st.sampled_from([True, True, False]))
@@ -397,9 +403,9 @@ def dof_cases(draw):
                 have = [p[1] for p in inset if p[0] == nid]
                 sub = draw(st.lists(st.sampled_from(have), min_size=1, max_size=len(have),
                                     unique=True))
-                if draw(st.integers(0, 3)):
+                if not one_in(draw, 4):
                     sub = sorted(sub)
-                if sub == [0] or draw(st.integers(0, 4)) == 0 or 0 in sub:
+                if sub == [0] or one_in(draw, 5) or 0 in sub:
                     req.extend([nid, d] for d in sub)
                 else:
                     req.append([nid, int("".join(map(str, sub)))])
@@ -407,7 +413,7 @@ def dof_cases(draw):
             for _ in range(draw(st.integers(0, 6))):
                 nid = draw(st.sampled_from(ids_all + ids_all + near))
                 req.append([nid, packed(draw)])
-            if draw(st.integers(0, 7)) == 0:
+            if one_in(draw, 8):
                 req.insert(draw(st.integers(0, len(req))),
                            [draw(st.sampled_from(ids_all)),
                             draw(st.sampled_from([7, 8, 9, 17, 1237, 123457, 91]))])
@@ -499,7 +505,7 @@ def build_cases(draw):
         else:
             req = [[draw(st.integers(0, 999)), packed(draw)]
                    for _ in range(draw(st.integers(0, 6)))]
-            if draw(st.integers(0, 5)) == 0:
+            if one_in(draw, 6):
                 req.append([draw(st.integers(0, 999)),
                             draw(st.sampled_from([7, 8, 19, 1273, 66677, 9]))])
             pack = draw(st.sampled_from(["list", "array"]))
@@ -510,7 +516,7 @@ def build_cases(draw):
     if k == "addgrid":
         tb = draw(tables(("ag",)))
         tb["nodes"] = [nd for nd in tb["nodes"] if nd[1] == "g"]
-        return {"k": k, "table": tb, "dup": draw(st.integers(0, 3)) == 0,
+        return {"k": k, "table": tb, "dup": one_in(draw, 4),
                 "first": draw(st.integers(0, len(tb["nodes"])))}
     if k == "make_uset_err":
         why = draw(st.sampled_from(["incomplete", "nasset_len", "xyz_len"]))
@@ -749,7 +755,7 @@ def locate_cases(draw):
             mats.append(m)
         if cc == 0:
             mats = [[row[0] for row in m] for m in mats]
-        elif draw(st.integers(0, 9)) == 0:
+        elif one_in(draw, 10):
             mats[1] = [row + [row[0]] for row in mats[1]]     # column count mismatch
         c.update(D1=mats[0], D2=mats[1], t1=t1, t2=t2, keep=draw(st.sampled_from([0, 0, 1, 2])),
                  kw=draw(st.booleans()))
@@ -759,8 +765,8 @@ def locate_cases(draw):
         c["pv"] = draw(st.lists(st.integers(0, n - 1), min_size=0, max_size=n + 2)) if n else []
         c["arr"] = draw(st.booleans())
     elif fn == "index2slice":
-        kind = draw(st.sampled_from(["step", "step", "rand", "neg", "single", "empty", "2d",
-                                     "almost"]))
+        kind = draw(st.sampled_from(["step", "step", "down", "rand", "neg", "single", "empty",
+                                     "2d", "almost"]))
         if kind in ("step", "almost"):
             a, d, m = draw(st.integers(0, 12)), draw(st.integers(-4, 4)), draw(st.integers(2, 6))
             pv = [a + d * i for i in range(m)]
@@ -768,6 +774,10 @@ def locate_cases(draw):
                 pv = [p - min(pv) for p in pv]
             if kind == "almost":
                 pv[draw(st.integers(0, m - 1))] += draw(st.sampled_from([1, 2]))
+        elif kind == "down":        # descending, last index 0, 1 .. step (slice stop at 0 / below)
+            d, m = draw(st.integers(1, 4)), draw(st.integers(2, 5))
+            last = draw(st.integers(0, d))
+            pv = [last + d * i for i in range(m - 1, -1, -1)]
         elif kind == "rand":
             pv = draw(st.lists(st.integers(0, 9), min_size=2, max_size=6))
         elif kind == "neg":
@@ -790,7 +800,7 @@ def locate_cases(draw):
         c["matrix"] = draw(st.lists(st.sampled_from(pool), min_size=r, max_size=r))
         row = draw(st.one_of(st.sampled_from(pool),
                              st.lists(st.sampled_from(alpha), min_size=cc, max_size=cc)))
-        if draw(st.integers(0, 7)) == 0:
+        if one_in(draw, 8):
             row = row + [row[0]]
         c["row"] = row
     elif fn == "find_subseq":
@@ -813,7 +823,7 @@ def locate_cases(draw):
         c["L2"] = draw(st.lists(items, min_size=0, max_size=8, unique=uniq))
     else:
         items = st.sampled_from(["one", "two", "four", "five", "ten", "zero", 1, 2, 3, 4])
-        uniq = draw(st.integers(0, 3)) > 0
+        uniq = not one_in(draw, 4)
         c["L1"] = draw(st.lists(items, min_size=0, max_size=7, unique=uniq))
         c["L2"] = draw(st.lists(items, min_size=0, max_size=7, unique=uniq))
         if uniq and draw(st.booleans()):
@@ -1114,9 +1124,9 @@ def oracle_edge(case, R):
 PARTS = [
     Part("lattice", oracle_lattice, enum=enum_lattice, quick=(8, None), thorough=(16, None),
          exhaustive=True),
-    Part("sets", oracle_sets, strategy=set_cases, quick=(8, 150), thorough=(16, 1500)),
-    Part("dofpv", oracle_dofpv, strategy=dof_cases, quick=(8, 250), thorough=(16, 2500)),
-    Part("build", oracle_build, strategy=build_cases, quick=(4, 250), thorough=(8, 2500)),
-    Part("locate", oracle_locate, strategy=locate_cases, quick=(8, 1500), thorough=(16, 12000)),
+    Part("sets", oracle_sets, strategy=set_cases, quick=(8, 200), thorough=(16, 2000)),
+    Part("dofpv", oracle_dofpv, strategy=dof_cases, quick=(8, 320), thorough=(16, 3000)),
+    Part("build", oracle_build, strategy=build_cases, quick=(4, 400), thorough=(8, 4000)),
+    Part("locate", oracle_locate, strategy=locate_cases, quick=(8, 2500), thorough=(16, 15000)),
     Part("edge", oracle_edge, enum=enum_edge, quick=(1, None), thorough=(1, None)),
 ]
